@@ -222,9 +222,12 @@ def propagate_facets(pages: Dict[FileId, Page], context: Context) -> None:
     """
     config = context[ProjectConfig]
     root = config.source_path
-    parent_facets = None
+    # The facets in effect in each directory scanned so far. os.walk() is top-down: a
+    # directory's parent has been handled before it, whatever the order of its siblings
+    facets_by_directory: Dict[str, Optional[List[Facet]]] = {}
 
     for base, _, files in os.walk(root):
+        parent_facets = facets_by_directory.get(os.path.dirname(base))
         if "facets.toml" in files:
             facet_path = Path(os.path.join(base, "facets.toml"))
             curr_facets, diagnostics = config.load_facets_from_file(facet_path)
@@ -237,6 +240,7 @@ def propagate_facets(pages: Dict[FileId, Page], context: Context) -> None:
             elif curr_facets:
                 parent_facets = curr_facets
 
+        facets_by_directory[base] = parent_facets
         if parent_facets:
             for file in files:
                 ext = os.path.splitext(file)[1]
